@@ -9,7 +9,9 @@ def run(ctx: Ctx) -> None:
     t5_derivs.run_flowfields_curl(ctx)
     t5_derivs.run_dtype(ctx)
     t5_derivs.run_gaussian_spacing(ctx)
+    t5_derivs.run_gaussian_structure(ctx)
     ctx.floor("T5.gaussian-spacing", 2)
+    ctx.floor("T5.gaussian-structure", 2)
     ctx.floor("T5.dtype", 8)
     ctx.floor("T5.flowfields-curl", 8)
     ctx.floor("T5.stencil", 30)
@@ -41,6 +43,9 @@ def mutants(prog):
         ("spatial_derivatives: always computes in float32", Im, "spatial_derivatives", "if not data.is_floating_point():\n        data = data.float()", "data = data.float()", "T5.dtype"),
         ("gaussian derivatives: spacing of the first axis", Im, "spatial_derivatives", "denom = spacing.narrow(1, sdim, 1)", "denom = spacing.narrow(1, 0, 1)", "T5.gaussian-spacing"),
         ("1-D spacing read per image when N = D", Im, "spatial_derivatives", "if spacing.ndim == 1:\n            spacing = spacing.unsqueeze(0)", "if spacing.ndim == 1:\n            spacing = spacing.unsqueeze(1 if N > 1 and spacing.shape[0] == N else 0)", "T5.batch-spacing"),
+        ("gaussian mode: derivative kernel along the other axes", Im, "spatial_derivatives", "kernel = kernel_1 if sdim == d else kernel_0", "kernel = kernel_0 if sdim == d else kernel_1", "T5.gaussian-structure"),
+        ("gaussian derivative kernel mirrored", "deepali.core.kernels", "gaussian1d_I", "* (x / var)", "* (-x / var)", "T5.gaussian-structure"),
+        ("gaussian mode: tensor axis of the first spatial dimension", Im, "spatial_derivatives", "kernel = kernel_1 if sdim == d else kernel_0", "kernel = kernel_1 if sdim == D - 1 - d else kernel_0", "T5.gaussian-structure"),
     ]
     for name, mod, fn, old, new, expect in specs:
         ov = source_sub(prog, mod, fn, old, new)
